@@ -13,7 +13,7 @@ from .common import run_tlc, ToolError
 
 O_CREAT, O_EXCL, O_APPEND, O_WRONLY, O_RDWR = 0o100, 0o200, 0o2000, 1, 2
 
-MODELLED = {"write", "read", "metadata", "exists", "list", "remove", "remove_hash", "link_to"}
+MODELLED = {"write", "read", "metadata", "exists", "list", "remove", "remove_hash", "link_to", "remove_fully", "clear"}
 
 
 def event_class(e):
@@ -36,6 +36,8 @@ def event_class(e):
         cls = "unlink_content"
     elif area == "content" and name in ("symlink", "symlinkat"):
         cls = "symlink"
+    elif area == "index" and e["file"] and name.startswith("unlink"):
+        cls = "unlink_bucket"
     if cls != "noise" and not ok:
         return "failed_effect"
     return cls
@@ -67,6 +69,10 @@ def abstract_op(sop, ext=None):
         return {"op": op, "d": sop["sri"][0]["d"]}
     if op == "list":
         return {"op": "list"}
+    if op == "remove_fully":
+        return {"op": "remove_fully", "k": sop["key"]}
+    if op == "clear":
+        return {"op": "clear"}
     return None
 
 
@@ -188,6 +194,6 @@ def drift_props(ev):
         if cls == "publish":
             return ["C03"]             # a rename into the content area from a temp file that is
                                        # not complete, or at a point where nothing is to publish
-        if cls == "unlink_content":
+        if cls in ("unlink_content", "unlink_bucket"):
             return ["C09"]
     return []
